@@ -380,7 +380,19 @@ Fixpoint noerr_prefix (stat : list Z) (n : Z) : list Z :=
   | s :: r => if n >? 0 then NC_NOERR :: noerr_prefix r (n - 1) else stat
   end.
 
-Definition extract_reqs (st : nbstate) (num_reqs : Z) (ids : list Z) (has_stat : bool) (stat0 : list Z) : extracted :=
+(* req_ids[0..num_reqs) names the pending requests of the queue exactly in queue order (the loop
+   `for (i=0; i<num_reqs && i<numLead; i++) if (req_ids[i] != lead[i].id) break;` ends with i == num_reqs;
+   it is evaluated where num_reqs == numLead) *)
+Definition ids_in_order (leads : list lead) (ids : list Z) (num_reqs : Z) : bool :=
+  list_eqb Z.eqb (zfirstn num_reqs ids) (map l_id leads).
+Definition unflag (l : lead) : lead := l_set_flag l false None.
+
+(* TWO VARIANTS of extract_reqs, selected by fx (the check reads the variant from the sources as built):
+   fx = false : ncmpio_wait.c as in the snapshot: the "same as ALL" shortcuts are taken whenever the NUMBER of
+                ids fits (req_ids is not read), and the NC_EINVAL_REQUEST return leaves the marks set;
+   fx = true  : with patches/F3_poison.diff: shortcuts 1 and 2 only when req_ids names the queue in order,
+                shortcut 3 removed, the error return clears NC_REQ_TO_FREE and the status pointer of every lead *)
+Definition extract_reqs (fx : bool) (st : nbstate) (num_reqs : Z) (ids : list Z) (has_stat : bool) (stat0 : list Z) : extracted :=
   let pl := put_lead st in let gl := get_lead st in
   let pr := put_reqs st in let gr := get_reqs st in
   if num_reqs <? 0 then
@@ -391,26 +403,30 @@ Definition extract_reqs (st : nbstate) (num_reqs : Z) (ids : list Z) (has_stat :
     let st2 := if wg then set_get st1 (flag_all gl) [] else st1 in
     mkex st2 ids stat0 (if wp then pr else []) (if wg then gr else [])
          (if wp then Zlen pl else 0) (if wg then Zlen gl else 0) NC_NOERR
-  else if (Zlen gr =? 0) && (num_reqs =? Zlen pl) then
+  else if (Zlen gr =? 0) && (num_reqs =? Zlen pl) && (negb fx || ids_in_order pl ids num_reqs) then
     (* "this is the same as NC_PUT_REQ_ALL" *)
     mkex (set_put st (if has_stat then flag_all_status pl 0 else flag_all pl) [])
          (all_null ids) (if has_stat then noerr_prefix stat0 (Zlen pl) else stat0)
          pr [] (Zlen pl) 0 NC_NOERR
-  else if (Zlen pr =? 0) && (num_reqs =? Zlen gl) then
+  else if (Zlen pr =? 0) && (num_reqs =? Zlen gl) && (negb fx || ids_in_order gl ids num_reqs) then
     (* "this is the same as NC_GET_REQ_ALL" *)
     mkex (set_get st (if has_stat then flag_all_status gl 0 else flag_all gl) [])
          (all_null ids) (if has_stat then noerr_prefix stat0 (Zlen gl) else stat0)
          [] gr 0 (Zlen gl) NC_NOERR
-  else if (num_reqs =? Zlen pl + Zlen gl) && negb has_stat then
-    (* "this is the same as NC_REQ_ALL" (only when statuses == NULL) *)
+  else if (num_reqs =? Zlen pl + Zlen gl) && negb has_stat && negb fx then
+    (* "this is the same as NC_REQ_ALL" (only when statuses == NULL; removed by the patch) *)
     mkex (set_get (set_put st (flag_all pl) []) (flag_all gl) [])
          (all_null ids) stat0 pr gr (Zlen pl) (Zlen gl) NC_NOERR
   else
     (* the requests are a subset of the pending requests *)
     let '(pl1, gl1, stat1, nwl, nwr, nrl, nrr, err) := ex_mark ids 0 has_stat pl gl stat0 0 0 0 0 NC_NOERR in
     if negb (err =? NC_NOERR) then
-      (* early return: the flags and status pointers set so far STAY *)
-      mkex (set_get (set_put st pl1 pr) gl1 gr) ids stat1 [] [] nwl nrl err
+      if fx then
+        (* patched: nothing is completed by a failed call, the marks are removed *)
+        mkex (set_get (set_put st (map unflag pl1) pr) (map unflag gl1) gr) ids stat1 [] [] 0 0 err
+      else
+        (* early return: the flags and status pointers set so far STAY *)
+        mkex (set_get (set_put st pl1 pr) gl1 gr) ids stat1 [] [] nwl nrl err
     else
       let '(ids', pe, ge) := ex_copy ids pl1 gl1 pr gr in
       let '(pl2, pr2) := if nwr =? 0 then (pl1, pr) else coalesce_nonlead pl1 pr 0 in
@@ -707,8 +723,8 @@ Record waitargs := mkwa { wa_n : Z; wa_ids : list Z; wa_has_stat : bool; wa_stat
 Record waitres := mkwr { wr_st : nbstate; wr_rc : Z; wr_ids : list Z; wr_stat : list Z; wr_ev : list event }.
 
 (* independent wait (ncmpi_wait), also wait_all on one process *)
-Definition wait_one (st : nbstate) (a : waitargs) (file : disk) : waitres * disk :=
-  let ex := extract_reqs st (wa_n a) (wa_ids a) (wa_has_stat a) (wa_stat0 a) in
+Definition wait_one (fx : bool) (st : nbstate) (a : waitargs) (file : disk) : waitres * disk :=
+  let ex := extract_reqs fx st (wa_n a) (wa_ids a) (wa_has_stat a) (wa_stat0 a) in
   let st1 := ex_st ex in
   if negb (ex_err ex =? NC_NOERR) then (mkwr st1 (ex_err ex) (ex_ids ex) (ex_stat ex) [], file)
   else
@@ -720,8 +736,8 @@ Definition wait_one (st : nbstate) (a : waitargs) (file : disk) : waitres * disk
 
 (* collective wait (ncmpi_wait_all) of all processes: extraction, MPI_Allreduce(MAX) of
    {#get, #put, -err, newnumrecs}, then I/O process after process, then post-processing *)
-Definition wait_coll (sts : list nbstate) (args : list waitargs) (file : disk) : list waitres * disk :=
-  let exs := map (fun p => extract_reqs (fst p) (wa_n (snd p)) (wa_ids (snd p)) (wa_has_stat (snd p)) (wa_stat0 (snd p)))
+Definition wait_coll (fx : bool) (sts : list nbstate) (args : list waitargs) (file : disk) : list waitres * disk :=
+  let exs := map (fun p => extract_reqs fx (fst p) (wa_n (snd p)) (wa_ids (snd p)) (wa_has_stat (snd p)) (wa_stat0 (snd p)))
                  (zip sts args) in
   let anyerr := existsb (fun ex => negb (ex_err ex =? NC_NOERR)) exs in
   if anyerr then
@@ -878,5 +894,5 @@ Definition isort {A} (key : A -> Z) (l : list A) : list A := fold_right (insert_
 Definition isort_reqs := isort a_start.
 Definition isort_segs := isort s_off.
 
-Definition wait_one_x := wait_one isort_reqs isort_segs.
-Definition wait_coll_x := wait_coll isort_reqs isort_segs.
+Definition wait_one_x (fx : bool) := wait_one isort_reqs isort_segs fx.
+Definition wait_coll_x (fx : bool) := wait_coll isort_reqs isort_segs fx.
